@@ -611,6 +611,11 @@ class Evaluator(object):
         it = self.ev(st.iter, env)
         while it.op == "call" and tm.callee_name(it.a[0]) in ("builtins.list", "builtins.tuple") and len(it.a[1]) == 1 and not it.a[2]:
             it = it.a[1][0]  # iterating list(X) visits the elements of X
+        if it.op == "call" and tm.callee_name(it.a[0]) == "np.argwhere" and len(it.a[1]) == 1 and not it.a[2] and isinstance(st.target, (ast.Tuple, ast.List)):
+            # the rows of np.argwhere(M) are the index tuples zip(*np.where(M))
+            wh = tm.call(tm.ext("np.where"), (it.a[1][0],))
+            self.site("call", st.iter, callee="np.where", fn=tm.ext("np.where"), base=None, args=(it.a[1][0],), kw=(), term=wh, via_filter=False, method=None)
+            it = tm.call(tm.mk("builtin", "zip"), (tm.mk("star", wh),))
         if isinstance(st.target, ast.Name):
             rw = self._row_iteration(it, "L%d" % (self.nloops + 1))
             if rw is not None:
@@ -1217,6 +1222,9 @@ class Evaluator(object):
             fn = args[0]
             args = args[1:]
         args, kw = self.canonical_args(fn, args, kw)
+        if base is not None and node.func.attr == "count" and len(args) == 1 and not kw and tm.is_const(args[0], True) and base.op == "comp" and base.a[0] == "list" and _boolean_valued_term(base.a[1]):
+            # [b(x) for x in it].count(True) with Boolean b is sum(b(x) for x in it)
+            return tm.call(tm.mk("builtin", "sum"), (tm.mk("comp", "gen", base.a[1], base.a[2], base.a[3], base.a[4]),))
         if base is not None:
             mname = node.func.attr
             t = tm.method_call(base, mname, args, kw)
@@ -1512,6 +1520,22 @@ def _literal_of_node(node):
 
 UNROLL = True
 SPLIT_ITE_RETURNS = True
+
+
+def _boolean_valued_term(t, depth=0):
+    if depth > 6:
+        return False
+    if t.op in ("cmp", "bool"):
+        return True
+    if t.op == "un" and t.a[0] == "not":
+        return True
+    if t.op == "const":
+        return isinstance(t.a[0], bool)
+    if t.op == "ite":
+        return _boolean_valued_term(t.a[1], depth + 1) and _boolean_valued_term(t.a[2], depth + 1)
+    if t.op == "call":
+        return tm.callee_name(t.a[0]) in ("builtins.any", "builtins.all", "builtins.bool", "builtins.isinstance", "np.any", "np.all", "np.allclose", "np.array_equal")
+    return False
 
 
 def _params_written_in_place(g):
